@@ -400,6 +400,7 @@ func checkC01(p *Program, r *Report) {
 	c01PrimitivePairing(p, r)
 	// an encoding depends on the frame alone: no content carried over in pooled buffers
 	poolHygiene(p, r, "pool-hygiene")
+	receiverReadOnly(p, r, "codec-stateless", "frame", "codec")
 }
 
 func c01Pair(p *Program, r *Report, key string, enc, dec *types.Func, v constant.Value, leg legality, byteMode bool, presets map[string]Val) int {
